@@ -242,7 +242,19 @@ def shrink(case):
             yield Case(_line(nd), nd, case.tags)
 
 
-NOT_READY = True
-LEVEL_TEXT = ""
-LEVEL_NOTE = ""
-TECHNIQUE = ""
+NOT_READY = False
+LEVEL_TEXT = ("proof: all clauses are Lean theorems about the executable model of dag_iterator / ancestors / descendants / "
+              "siblings / go_to (BigtreeModel/Dag.lean), for every well-formed DAG (links symmetric, duplicate-free, acyclic) "
+              "of any size and every start / target node; the model is tied to the code by the correspondence check")
+LEVEL_NOTE = ("dag_iter_edges: the yielded pairs are a permutation of the edge list (every edge exactly once, parent->child) "
+              "whenever every node is weakly connected to the start node; dag_iter_mem gives the general form (exactly the edges "
+              "of the start node's component); fuel_suffices: the fuel-bounded recursion equals the unbounded one. "
+              "ancestors/descendants = reachability + Nodup; siblings as a set (the tuple bigtree returns repeats a sibling "
+              "once per shared parent; the property does not ask for 'once' there); go_to = exactly the directed paths, "
+              "each once, refusal iff target unreachable. Nothing is partial. Rests on the tie: that the Python functions "
+              "behave as the model (visited set keyed by name, adjacency-list order), and that DAGs built through the setters "
+              "are well-formed (C10)")
+TECHNIQUE = ("Lean 4 proof over an executable fuel-bounded DFS model (order-independent invariant 'out = edges touching "
+             "visited', neighbour-closure of the final visited set, pigeonhole bound for path length from acyclicity) + "
+             "differential correspondence check against real bigtree (exhaustive DAGs <=4 nodes x construction orders, random "
+             "DAGs to 10 nodes with up to 4 parents) + model-free graph-theoretic oracle (BFS reachability, DFS path enumeration)")
